@@ -211,6 +211,16 @@ def corpus():
                        fld(5, LEN, msg(fld(1, VARINT, 70001 + rnd), fld(2, LEN, bytes(32)))))
             reqs.append(fld(1, LEN, msg(fld(2, LEN, b"Wallet 1/Account %d" % ai), fld(3, LEN, dom_att), fld(4, LEN, data))))
         out.append(("dl:%d:/v1.Signer/SignBeaconAttestations" % dl, "client-test01", msg(*reqs), "abandoned-batch"))
+    # batches of every size around the number of processors and its multiples (well-formed entries naming accounts that do not
+    # exist): however a batch is split among workers, no worker may be given a range beyond the batch
+    dom_r = bytes([2, 0, 0, 0]) + bytes(28)
+    for nb in list(range(14, 36)) + [47, 48, 49, 50, 63, 64, 65, 66, 127, 129, 209]:
+        ms_ = msg(*[fld(1, LEN, msg(fld(2, LEN, b"Wallet 1/No such %d" % q), fld(3, LEN, bytes(32)), fld(4, LEN, dom_r))) for q in range(nb)])
+        out.append(("/v1.Signer/Multisign", "client-test01", ms_, "batch-size-sweep"))
+        if nb % 3 == 0 or nb in (17, 33, 49):
+            ad_ = msg(fld(1, VARINT, 1), fld(2, VARINT, 1), fld(3, LEN, bytes(32)), fld(4, LEN, msg(fld(1, VARINT, 1), fld(2, LEN, bytes(32)))), fld(5, LEN, msg(fld(1, VARINT, 2), fld(2, LEN, bytes(32)))))
+            as_ = msg(*[fld(1, LEN, msg(fld(2, LEN, b"Wallet 1/No such %d" % q), fld(3, LEN, dom_att), fld(4, LEN, ad_))) for q in range(nb)])
+            out.append(("/v1.Signer/SignBeaconAttestations", "client-test01", as_, "batch-size-sweep"))
     for rp in REGEX_PAYLOADS:
         for pre in (b"Wallet 1/", b"Nope/", b""):
             out.append(("/v1.Lister/ListAccounts", "client-test01" if pre != b"Nope/" else "client-test02", msg(fld(1, LEN, pre + rp)), "list-regex-syntax"))
